@@ -373,7 +373,7 @@ pub fn run(args: &Args) {
         (Spec::Fan(true), Spec::Reads(true)),
         (Spec::Gain { seg: 1, tr: None, seed: 32 }, Spec::GpioIn(0b0011)),
         (Spec::Mod { seg: 0, tr: None, rep: 0xFFFF, div: 10, n: 700, seed: 33 }, Spec::SilSteps(4, 9, false)),
-        (Spec::CpuGpio(0x11), Spec::Debug([0x21u64 << 56 | 3, 0, 0, 0x10u64 << 56])),
+        (Spec::CpuGpio(0xA0), Spec::Debug([0x21u64 << 56 | 3, 0, 0, 0x10u64 << 56])),
     ];
     for (k, (x, y)) in tuples.iter().enumerate() {
         for (j, p) in alpha.iter().enumerate() {
